@@ -1285,14 +1285,22 @@ func stateAnyCommentStart(s *Scanner, c byte) state {
 		s.annotation = annotationNone
 		s.step = stateInlineComment
 		return stateInlineComment(s, c)
-	} else if s.index < s.dataSize && s.data[s.index] == '#' { // third #
-		s.annotation = annotationNone
-		s.step = stateMultiLineComment
-		s.unfinishedComment = true
-		return scanContinue
 	}
 
-	panic(s.newDocumentErrorAtCharacter("after first #"))
+	// second #: the opener of a multi-line comment, only the third # can follow
+	s.annotation = annotationNone
+	s.step = stateMultiLineCommentStart
+	s.unfinishedComment = true
+	return scanContinue
+}
+
+// after reading `##`
+func stateMultiLineCommentStart(s *Scanner, c byte) state {
+	if c != '#' {
+		panic(s.newDocumentErrorAtCharacter("after second #"))
+	}
+	s.step = stateMultiLineComment
+	return s.step(s, c)
 }
 
 func stateInlineComment(s *Scanner, c byte) state {
